@@ -33,7 +33,7 @@ def gen_panel(rng, n, n_dates, mirror=False):
   base = np.cumsum(rng.normal(size=n_dates)) * rng.uniform(1.0, 4.0) + 60
   season = 8 * np.sin(np.arange(n_dates) * rng.uniform(0.3, 1.2))
   cells = {}
-  scales = sorted((rng.uniform(0.6, 1.6) * (1.9 ** i) for i in range(n)), reverse=True)
+  scales = sorted((rng.uniform(0.6, 1.6) * (1.9 ** (i * min(1.0, 5.0 / n))) for i in range(n)), reverse=True)   # <= ~25x: TLC integers are 32-bit
   rng.shuffle(scales)
   for g in range(1, n + 1):
     kind = rng.choice(['follow', 'follow', 'follow', 'noisy', 'lagged'] + (['mirror'] * 2 if mirror else []))
@@ -367,6 +367,7 @@ def perturb_caller_objects(par, df):
 
 def _outcome(inst, ids_fn, which, scale, thunk, after=None):
   """Runs thunk (a search of the real code) and projects what it returns; exceptions are outcomes."""
+  projector = project_design_lite if inst.get('lite') else project_design
   try:
     res = thunk()
     if not isinstance(res, list):
@@ -374,7 +375,7 @@ def _outcome(inst, ids_fn, which, scale, thunk, after=None):
     if after is not None:
       after()
     ids = ids_fn()
-    return {'status': 'ok', 'designs': [project_design(inst, d, ids, which, scale) for d in res], 'error': ''}
+    return {'status': 'ok', 'designs': [projector(inst, d, ids, which, scale) for d in res], 'error': ''}
   except ValueError as e:
     return {'status': 'valueerror', 'designs': [], 'error': 'ValueError: %s' % e}
   except Exception as e:  # pylint: disable=broad-except
@@ -841,6 +842,17 @@ def run_search_clauses(res, owner, count=None):
 
 def replay_case(res, blob):
   c = blob['case']
+  if c.get('kind') == 'large_greedy':
+    inst = _run_lite(_prep_lite(from_public(c['instance'])))
+    out = _lite_chunk((0, 'replay', [to_tla_lite(inst)]))
+    if 'error' in out:
+      raise tlc.MachineryError(out['error'])
+    res.traces += 1
+    res.case_seen('replay')
+    for cl in out['verdicts'][0]['fails']:
+      if cl.startswith(blob['property'] + ':'):
+        res.violate(cl.split(':', 1)[1], c, 'still rejected: %s' % [(d['t'], d['c']) for d in inst['greedy']['designs']])
+    return
   inst = _prep(from_public(c['instance']))
   inst = run_instance(inst)
   group = [inst] + ([inst['partner']] if inst.get('partner') is not None else [])
@@ -983,3 +995,208 @@ def run_step_validation(res, insts, owner, module='MMStepTrace'):
   if solo and events == 0:
     raise tlc.MachineryError('no hook events were recorded: is GOOGLE_MATCHED_MARKETS_VERIF=1 set and the hook commit present?')
   return verdicts
+
+
+# ---------------------------------------------------------------------------------------------- large panels (greedy only)
+def attach_oracle_lite(inst):
+  """Per-geo facts only (weights, screens, impact order): no tables over all designs."""
+  n = inst['n']
+  p = oracle_par(inst)
+  full = np.zeros((n, inst['n_dates']))
+  for (g, d), v in inst['cells'].items():
+    full[g - 1, d] = v
+  window = full[:, -p['n_pretest_max']:]
+  term = oracle.impact_term(p['n_test'], window.shape[1], p['flevel'], p['sig_level'], p['power_level'])
+  margins = oracle.Margins()
+  geo_impact = [term * oracle.std2(window[g]) * math.sqrt(1 - p['rho_max'] ** 2) for g in range(n)]
+  iroas = p['iroas']
+  if inst['want_budget'] and inst['budget'] is None and iroas > 0:
+    single = sorted(v / iroas for v in geo_impact)
+    r = random.Random(inst['shuffle_seed'])
+    hi = r.choice([single[len(single) // 2] * 3, single[-1] * 2, single[-1] * 20])
+    lo = r.choice([0.0, 0.0, single[0] * 0.1])
+    inst['budget'] = (float('%.6g' % lo), float('%.6g' % hi))
+    p = oracle_par(inst)
+  budget = p.get('budget_range')
+  over = []
+  if budget is not None:
+    for g in range(n):
+      margins.see(geo_impact[g], budget[1] * iroas, 'geo over budget')
+      if geo_impact[g] > budget[1] * iroas:
+        over.append(g + 1)
+  order = sorted(range(1, n + 1), key=lambda g: -geo_impact[g - 1])
+  for i in range(len(order) - 1):
+    margins.see(geo_impact[order[i] - 1], geo_impact[order[i + 1] - 1], 'impact order tie')
+  weights = [int(round(full[g].sum())) for g in range(n)]
+  share = p.get('treatment_share_range')
+  if share is not None:
+    for g in range(n):
+      margins.see(weights[g] / float(sum(weights)), share[1], 'geo too large')
+  inst['tab'] = {'weights': weights, 'geo_impact': geo_impact, 'over_budget': over, 'impact_order': order, 'term': term,
+                 'window': window, 'margin': margins.min, 'margin_where': margins.where, 'par': p}
+  inst['lite'] = True
+  return inst
+
+
+def project_design_lite(inst, d, ids, which, scale=1.0):
+  """One returned design against the oracle evaluated on that design only."""
+  tab = inst['tab']
+  p = tab['par']
+  num = {str(i): g + 1 for g, i in enumerate(ids)}
+  t = sorted(num.get(str(x), 0) for x in d.treatment_geos)
+  c = sorted(num.get(str(x), 0) for x in d.control_geos)
+  out = {'t': t, 'c': c, 'budgetOK': True, 'seriesOK': False, 'diagOK': False, 'scoreOK': False, 'score': None, 'margin': 1.0}
+  if not t or not c or 0 in t or 0 in c or set(t) & set(c):
+    return out
+  y = tab['window'][[g - 1 for g in t]].sum(axis=0)
+  x = tab['window'][[g - 1 for g in c]].sum(axis=0)
+  m = oracle.Margins()
+  o = oracle.diagnostics(x, y, p, tab['term'], m, 'lite')
+  budget = p.get('budget_range')
+  if budget is not None:
+    rb = o['ri'] / p['iroas'] if p['iroas'] != 0 else float('inf')
+    m.see(rb, budget[0], 'budget lo')
+    m.see(rb, budget[1], 'budget hi')
+    out['budgetOK'] = bool(budget[0] <= rb <= budget[1])
+  vt = p.get('volume_ratio_tolerance')
+  if vt is not None:
+    wt = sum(tab['weights'][g - 1] for g in t)
+    wc = sum(tab['weights'][g - 1] for g in c)
+    m.see(wc / float(wt), 1 + vt, 'volume hi')
+    m.see(wc / float(wt), 1 / (1 + vt), 'volume lo')
+  sh = p.get('treatment_share_range')
+  if sh is not None:
+    wt = sum(tab['weights'][g - 1] for g in t)
+    for ref in (sum(tab['weights']),):
+      m.see(wt / float(ref), sh[0], 'share lo')
+      m.see(wt / float(ref), sh[1], 'share hi')
+  out['margin'] = m.min
+  dy = np.asarray(d.diag.y, dtype=float)
+  dx = np.asarray(d.diag.x, dtype=float) if d.diag.x is not None else None
+  out['seriesOK'] = bool(len(dy) == len(y) and np.allclose(dy, y, rtol=1e-12, atol=1e-9) and dx is not None and
+                         len(dx) == len(x) and np.allclose(dx, x, rtol=1e-12, atol=1e-9))
+  dg = d.diag
+  got = (float(dg.corr), float(dg.required_impact), bool(dg.corr_test), bool(dg.aatest.test_ok), bool(dg.bbtest.test_ok),
+         bool(dg.dwtest.test_ok))
+  out['diagOK'] = bool(close(got[0], o['corr']) and close(got[1], o['ri']) and got[2:] == (
+      o['corr_ok'], o['aa_ok'], o['bb_ok'], o['dw_ok']))
+  exp = oracle.score_tuple(o, (1.0 / o['ri']) if o['ri'] != 0 else float('inf'))
+  sc = tuple(d.score.score)
+  out['scoreOK'] = bool((int(sc[0]), int(sc[1]), int(sc[2]), int(sc[3])) == exp[:4] and close(float(sc[4]), exp[4], 1e-12) and
+                        close(float(sc[5]), exp[5]))
+  out['score'] = exp
+  return out
+
+
+def to_tla_lite(inst):
+  tab = inst['tab']
+  r = inst['greedy']
+  scores = {i: d['score'] for i, d in enumerate(r['designs']) if d.get('score') is not None}
+  ranks = oracle.dense_ranks(scores) if scores else {}
+  ds = [{'t': d['t'], 'c': d['c'], 'budgetOK': bool(d['budgetOK']), 'rk': int(ranks.get(i, 0)), 'seriesOK': bool(d['seriesOK']),
+         'diagOK': bool(d['diagOK']), 'scoreOK': bool(d['scoreOK'])} for i, d in enumerate(r['designs'])]
+  return {'id': inst['id'], 'n': inst['n'], 'elig': inst['elig'], 'w': tab['weights'], 'tr': list(inst['tr']),
+          'cr': list(inst['cr']), 'gtol': list(inst['gtol']), 'vtol': list(inst['vtol']), 'share': list(inst['share']),
+          'hasBudget': inst['budget'] is not None, 'k': inst['par']['n_designs'], 'nmax': inst['nmax'],
+          'missingRequired': (not inst['default_elig']) and inst.get('extra_elig_row') in ('ct', 'c', 't'),
+          'overBudget': tab['over_budget'], 'impactOrder': tab['impact_order'],
+          'greedy': {'status': r['status'], 'designs': ds}}
+
+
+def _lite_chunk(args):
+  idx, label, records = args
+  rundir = tlc.run_dir('%s_lite%02d' % (label, idx))
+  path = os.path.join(rundir, 'instances.json')
+  with open(path, 'w') as f:
+    json.dump({'instances': records}, f)
+  r = tlc.run_tlc('MMTraceLite', TRACE_CFG, rundir, workers=1, env={'TRACE_FILE': path}, timeout=3000,
+                  java_opts=['-Xmx3g', '-XX:+UseSerialGC', '-XX:TieredStopAtLevel=1'])
+  if r.returncode != 0:
+    return {'error': 'TLC failed on MMTraceLite chunk %d (exit %s): %s' % (idx, r.returncode, r.stdout[-1500:])}
+  return {'verdicts': [v for v in r.json_lines() if isinstance(v, dict) and 'fails' in v], 'distinct': r.distinct,
+          'generated': r.generated}
+
+
+def _prep_lite(inst):
+  try:
+    return attach_oracle_lite(inst)
+  except Exception as e:  # pylint: disable=broad-except
+    inst['tab'] = None
+    inst['oracle_error'] = '%s: %s' % (type(e).__name__, e)
+    return inst
+
+
+def _run_lite(inst):
+  inst['greedy'] = run_search(inst, 'greedy', {'no_events': True})
+  return inst
+
+
+def run_large_greedy(res, owner, count=None):
+  """greedy_search() on 7-14 geos: the clauses about returned designs, judged by MMTraceLite.tla."""
+  thorough = res.tier == 'thorough'
+  if count is None:
+    count = 400 if thorough else 48
+  rng = random.Random(res.seed * 7907 + sum(map(ord, owner)) + 5)
+  insts = []
+  for i in range(count):
+    fam = rng.choice(['random', 'constraints', 'constraints'])
+    inst = gen_instance(rng, 500000 + i, fam, nmax_geos=6)
+    n = rng.randint(7, 14)
+    nprng = np.random.RandomState(rng.randint(0, 2 ** 31 - 1))
+    inst['n'] = n
+    inst['cells'] = gen_panel(nprng, n, inst['n_dates'])
+    inst['elig'] = ['ctx'] * n if inst['default_elig'] else rng.choices(CLASSES, weights=CLASS_W, k=n)
+    if inst['tr'][1]:
+      inst['tr'] = (inst['tr'][0], rng.randint(inst['tr'][0], n))
+    if inst['cr'][1]:
+      inst['cr'] = (inst['cr'][0], rng.randint(inst['cr'][0], n))
+    if inst['nmax']:
+      inst['nmax'] = rng.randint(max(2, n - 5), n)
+    inst['family'] = 'large:' + fam
+    inst['perturb_after'] = rng.random() < 0.5
+    inst['decoy'] = rng.random() < 0.2
+    inst['budget'] = None
+    insts.append(inst)
+  insts = par_mod.pmap(_prep_lite, insts)
+  insts = [i for i in insts if i['tab'] is not None and i['tab']['margin'] >= oracle.REL]
+  insts = par_mod.pmap(_run_lite, insts, chunksize=1)
+  kept = []
+  for i in insts:
+    if i['greedy']['status'] == 'unconstructible':
+      continue
+    if any(d.get('margin', 1.0) < oracle.REL for d in i['greedy']['designs']):
+      res.extra['dropped_nongeneric'] = res.extra.get('dropped_nongeneric', 0) + 1
+      continue
+    kept.append(i)
+  records = [to_tla_lite(i) for i in kept]
+  nchunks = max(1, min(6, len(records) // 8 or 1))
+  outs = par_mod.pmap(_lite_chunk, [(c, owner, records[c::nchunks]) for c in range(nchunks)], nproc=nchunks, chunksize=1)
+  verdicts = {}
+  for o in outs:
+    if 'error' in o:
+      raise tlc.MachineryError(o['error'])
+    res.states += o['distinct']
+    res.transitions += o['generated']
+    for v in o['verdicts']:
+      verdicts[v['id']] = v
+  res.tlc_runs.append({'label': 'MMTraceLite.' + owner, 'chunks': nchunks, 'instances': len(records)})
+  nonempty = 0
+  for inst in kept:
+    v = verdicts.get(inst['id'])
+    if v is None:
+      raise tlc.MachineryError('MMTraceLite produced no verdict for instance %d' % inst['id'])
+    res.traces += 1
+    res.case_seen(('large', inst['id']))
+    nonempty += bool(inst['greedy']['designs'])
+    for c in v['fails']:
+      if c.startswith(owner + ':'):
+        res.violate(c.split(':', 1)[1], {'kind': 'large_greedy', 'instance': public(inst),
+                                         'observed': {'status': inst['greedy']['status'], 'error': inst['greedy'].get('error', ''),
+                                                      'designs': [(d['t'], d['c']) for d in inst['greedy']['designs']]}},
+                    'MMTraceLite rejects the recorded greedy result on %d geos: clause %s; designs %s %s' % (
+                        inst['n'], c, [(d['t'], d['c']) for d in inst['greedy']['designs']], inst['greedy'].get('error', '')))
+  res.extra['large_greedy_instances'] = len(kept)
+  res.extra['large_greedy_nonempty'] = nonempty
+  if kept and nonempty == 0 and owner != 'C09':
+    raise tlc.MachineryError('vacuous: no large-panel greedy run returned a design')
+  return kept, verdicts
